@@ -2,7 +2,9 @@
    /verif/harness/cmd/selectcount/main.go (see there for the case syntax); the answers are
    computed by the extracted SelectExplainModel.
 
-   stdout: <header count> TAB <direct children> TAB <md5 of the printed text>   (-text: hex of the text)
+   stdout: <header count> TAB <direct children> TAB <md5 of the printed text> TAB M   (-text: hex of the text)
+           or  - TAB - TAB - TAB O  for an oracle-only case (a spec containing the letter e:
+           "present but empty" slice, which the model cannot distinguish from nil)
            or OUTOFMODEL when a `u` item (nested single-select union) does not itself print as a
            tree in the model (then it cannot be handed on as an already rendered sub-tree).
 
@@ -133,6 +135,15 @@ let union arg items =
 let lines_of_case kind arg items =
   match kind with
   | "S" -> explain_select_query O (build items)
+  | "W" ->
+    (* second member of a union whose first member has WITH fw1..fw<w> *)
+    explain_select_query_with_inherited_with O (ItemSelect (build items))
+      (idents "fw" (Char.code arg.[0] - 48))
+  | "V" ->
+    (* the single member of the union of an INSERT with WITH iw1..iw<w>:
+       ExplainSelectWithInheritedWith dispatches a SelectQuery to the same printer *)
+    explain_select_query_with_inherited_with O (ItemSelect (build items))
+      (idents "iw" (Char.code arg.[0] - 48))
   | "U" -> explain_select_with_union_query O (union arg items)
   | "N" ->
     if String.length arg <> 4 then failwith "N arg must be 4 digits";
@@ -165,14 +176,17 @@ let () =
       let line = input_line stdin in
       if line <> "" then begin
         match String.split_on_char '\t' line with
+        | [_; _; items] when String.contains items 'e' ->
+          (* "present but empty" slices: the model cannot tell nil from empty; oracle-only *)
+          print_endline "-\t-\t-\tO"
         | [kind; arg; items] ->
           (try
              let ls = lines_of_case kind arg items in
              let text = string_of_bytes (print_lines ls) in
-             Printf.printf "%d\t%d\t%s\n"
+             Printf.printf "%d\t%d\t%s\tM\n"
                (int_of_nat (header_count ls)) (int_of_nat (direct_children ls))
                (if as_text then hex_of_string text else Digest.to_hex (Digest.string text))
-           with Out_of_model -> print_endline "OUTOFMODEL")
+           with Out_of_model -> print_endline "OUTOFMODEL\tM")
         | _ -> failwith ("bad case line " ^ line)
       end
     done
